@@ -36,7 +36,12 @@ def font_space_extent(glyphs, cfg):
 def error_predicted(glyphs, cfg):
     """The reference model predicts 'unrepresentable' when source geometry approaches the
     int16 coordinate range (gradient geometry may lie somewhat outside its shape)."""
-    return font_space_extent(glyphs, cfg) > 0.75 * INT16
+    if font_space_extent(glyphs, cfg) > 0.75 * INT16:
+        return True
+    # ... or when a glyph's advance (the larger of the configured width and em height x viewBox aspect) exceeds what hmtx can
+    # hold (uint16) -- with an outline in it, what hhea's int16 side-bearing fields can hold
+    em = cfg.ascender - cfg.descender
+    return any(max(cfg.width, em * g.vb[2] / g.vb[3]) > 32767 for g in glyphs)
 
 
 def leaf_probes(leaf, M, n=7):
